@@ -3,7 +3,8 @@
    chython/algorithms/isomorphism.py and chython/_functions.py by the correspondence of harness/checks/C07.py). *)
 From Coq Require Import ZArith List Bool Permutation.
 From Model Require Import PyBase Graph Rings Stereo Iso IsoStereo.
-From Proofs Require Import StereoProofs IsoLazyProofs IsoMatchProofs IsoCompileProofs IsoProofs IsoExt IsoAuto IsoStereoProofs IsoStereoExt IsoMatchStereo IsoCC.
+From Proofs Require Import StereoProofs IsoLazyProofs IsoMatchProofs IsoCompileProofs IsoProofs IsoExt IsoAuto IsoStereoProofs IsoStereoExt IsoMatchStereo IsoCC IsoOpsTie IsoTrace.
+From Gen Require Import IsoOps.
 Import ListNotations.
 Open Scope Z_scope.
 
@@ -654,3 +655,91 @@ Theorem C07_example_cc :
   cc_of ex_o_bonds [3; 4; 1; 2] = [[3; 2; 1]; [4]] /\ cc_tieb ex_o_bonds [3; 4; 1; 2] [[1; 2; 3]; [4]] = true.
 Proof. exact example_cc. Qed.
 Print Assumptions C07_example_cc.
+
+(* ---------------------------------------------------------------------------------------------------------------
+   Round 3, tie: the control skeleton of chython/algorithms/isomorphism.py that the hand-written model copies is regenerated from
+   the source on every run (tools/gen_isoops.py -> Gen.IsoOps, Python ast, fail closed); the model is the instance of a skeleton
+   parametrised by the generated constants (Proofs.IsoOpsTie).  Editing an operator, a call direction, a filter argument, the scope
+   test, the component split or a loop exit in the source breaks the theorem named after it.
+   --------------------------------------------------------------------------------------------------------------- *)
+Theorem C07_restrict_generated : forall scope cand,
+  restrict scope cand = restrict_gen (negb (gen_scope_truthiness_tests =? 0)%nat) scope cand.
+Proof. exact restrict_generated. Qed.
+Print Assumptions C07_restrict_generated.
+
+Theorem C07_iso_stream_generated : forall (QA A QB B : Type) (amatch : QA -> A -> bool) (bmatch : QB -> B -> bool) comps clo o_atoms o_bonds tcomps scope,
+  iso_stream amatch bmatch comps clo o_atoms o_bonds tcomps scope =
+  iso_stream_gen QA A QB B amatch bmatch gen_single_branch_len gen_empty_candidate_exits comps clo o_atoms o_bonds tcomps scope.
+Proof. exact iso_stream_generated. Qed.
+Print Assumptions C07_iso_stream_generated.
+
+Theorem C07_is_substructure_generated : forall (QA A QB B : Type) (amatch : QA -> A -> bool) (bmatch : QB -> B -> bool) q_atoms q_bonds o_atoms o_bonds tcomps,
+  is_substructure amatch bmatch q_atoms q_bonds o_atoms o_bonds tcomps =
+  match mol_get_mapping amatch bmatch q_atoms q_bonds o_atoms o_bonds tcomps gen_sub_filter None with
+  | Err e => Err e | Ok [] => Ok false | Ok (_ :: _) => Ok true
+  end.
+Proof. exact is_substructure_generated. Qed.
+Print Assumptions C07_is_substructure_generated.
+
+Theorem C07_is_equal_generated : forall (QA A QB B : Type) (amatch : QA -> A -> bool) (bmatch : QB -> B -> bool) q_atoms q_bonds o_atoms o_bonds tcomps,
+  is_equal amatch bmatch q_atoms q_bonds o_atoms o_bonds tcomps =
+  if cmp_eval gen_equal_guard (length q_atoms) (length o_atoms) then Ok false
+  else match mol_get_mapping amatch bmatch q_atoms q_bonds o_atoms o_bonds tcomps gen_equal_filter None with
+       | Err e => Err e | Ok [] => Ok false | Ok (_ :: _) => Ok true
+       end.
+Proof. exact is_equal_generated. Qed.
+Print Assumptions C07_is_equal_generated.
+
+Theorem C07_iso_lt_generated : forall (QA A QB B : Type) (amatch : QA -> A -> bool) (bmatch : QB -> B -> bool) q_atoms q_bonds o_atoms o_bonds tcomps,
+  iso_lt amatch bmatch q_atoms q_bonds o_atoms o_bonds tcomps =
+  if cmp_eval gen_lt_guard (length q_atoms) (length o_atoms) then Ok false
+  else is_substructure amatch bmatch q_atoms q_bonds o_atoms o_bonds tcomps.
+Proof. exact iso_lt_generated. Qed.
+Print Assumptions C07_iso_lt_generated.
+
+Theorem C07_gt_is_mirrored_lt : forall a b, cmp_eval gen_gt_guard a b = cmp_eval gen_lt_guard b a.
+Proof. exact gt_is_mirrored_lt. Qed.
+Print Assumptions C07_gt_is_mirrored_lt.
+
+Theorem C07_call_directions_generated :
+  (gen_lt_swapped, gen_le_swapped, gen_gt_swapped, gen_ge_swapped) = (false, false, true, true) /\ (gen_scope_is_not_none_tests = 3)%nat.
+Proof. exact call_directions_generated. Qed.
+Print Assumptions C07_call_directions_generated.
+
+Theorem C07_match_stereo_search_filter_generated : forall (QA A QB B B' : Type) (amatch : QA -> A -> bool) (bmatch : QB -> B -> bool)
+    (beq : B' -> B' -> bool) q_atoms q_bonds o_atoms o_bonds tcomps flt scope (oracle : list (mapping * ms_obs B')),
+  get_mapping_match_stereo amatch bmatch beq q_atoms q_bonds o_atoms o_bonds tcomps flt scope oracle =
+  match mol_get_mapping amatch bmatch q_atoms q_bonds o_atoms o_bonds tcomps (if gen_match_stereo_filter_or then flt || true else flt) scope with
+  | Err e => Err e
+  | Ok ms => match all_ok (map (oracle_get oracle) ms) with
+             | Err e => Err e
+             | Ok obs => match_stereo_stream beq flt obs
+             end
+  end.
+Proof. exact match_stereo_search_filter_generated. Qed.
+Print Assumptions C07_match_stereo_search_filter_generated.
+
+Theorem C07_automorphism_guards_generated : forall (B : Type) (beq : B -> B -> bool) atoms (bonds : list (Z * list (Z * B))),
+  get_automorphism_mapping beq atoms bonds =
+  if cmp_eval gen_auto_unique_guard (length atoms) (length (zdedup (map snd atoms))) then Ok []
+  else match compile_query atoms bonds with
+       | Err e => Err e
+       | Ok (comps, clo) =>
+           let mappers := map (fun order => get_mapping Z.eqb beq order clo atoms bonds (map fst4 order)) comps in
+           let nonid := filter (fun mp : mapping => existsb (fun kv => negb (fst kv =? snd kv)) mp) in
+           if Z.of_nat (length mappers) =? gen_auto_single_len
+           then match mappers with m :: _ => Ok (nonid m) | [] => Err IndexError end
+           else Ok (nonid (map merge_copy (lazy_product mappers)))
+       end.
+Proof. exact automorphism_guards_generated. Qed.
+Print Assumptions C07_automorphism_guards_generated.
+
+(* intermediate states of _get_mapping: get_mapping_trace lists what the explicit stack pops -- (node, depth, valid part of the path) --
+   and is compared entry by entry with the real loop (sys.settrace) by the correspondence; the mappings yielded are exactly the trace
+   entries at full depth, in order *)
+Theorem C07_get_mapping_trace_yields : forall (QA A QB B : Type) (amatch : QA -> A -> bool) (bmatch : QB -> B -> bool)
+    lq clo (o_atoms : list (Z * A)) (o_bonds : list (Z * list (Z * B))) scope,
+  map image (get_mapping amatch bmatch lq clo o_atoms o_bonds scope) =
+  map leaf_image (filter (full (Z.of_nat (length lq) - 1)) (get_mapping_trace amatch bmatch lq clo o_atoms o_bonds scope)).
+Proof. exact get_mapping_trace_yields. Qed.
+Print Assumptions C07_get_mapping_trace_yields.
